@@ -192,4 +192,833 @@ theorem fit_perm (ps qs : List Pair) (hperm : ps.Perm qs) (hw : ∀ p ∈ ps, 0 
   rw [map_triple (fitPairs_fst wmean (tidy ps)) _ h1, map_triple (fitPairs_fst wmean (tidy qs)) _ h2,
     tidy_keys_perm ps qs hperm]
 
+/-! ### B. the max-min formula -/
+
+open SV.Spec.Isotonic (maxL minL avg maxmin maxminSeq)
+
+theorem foldl_max_le {v : Rat} (xs : List Rat) (x : Rat) (hx : x ≤ v) (h : ∀ y ∈ xs, y ≤ v) : xs.foldl max x ≤ v := by
+  induction xs generalizing x with
+  | nil => simpa using hx
+  | cons a t ih =>
+    simp only [List.foldl_cons]
+    exact ih _ (max_le hx (h a (by simp))) (fun y hy => h y (by simp [hy]))
+
+theorem le_foldl_max (xs : List Rat) (x : Rat) : x ≤ xs.foldl max x ∧ ∀ y ∈ xs, y ≤ xs.foldl max x := by
+  induction xs generalizing x with
+  | nil => simp
+  | cons a t ih =>
+    simp only [List.foldl_cons]
+    obtain ⟨h1, h2⟩ := ih (max x a)
+    refine ⟨le_trans (le_max_left _ _) h1, ?_⟩
+    intro y hy
+    rcases List.mem_cons.mp hy with rfl | hm
+    · exact le_trans (le_max_right _ _) h1
+    · exact h2 y hm
+
+theorem le_foldl_min {v : Rat} (xs : List Rat) (x : Rat) (hx : v ≤ x) (h : ∀ y ∈ xs, v ≤ y) : v ≤ xs.foldl min x := by
+  induction xs generalizing x with
+  | nil => simpa using hx
+  | cons a t ih =>
+    simp only [List.foldl_cons]
+    exact ih _ (le_min hx (h a (by simp))) (fun y hy => h y (by simp [hy]))
+
+theorem foldl_min_le (xs : List Rat) (x : Rat) : xs.foldl min x ≤ x ∧ ∀ y ∈ xs, xs.foldl min x ≤ y := by
+  induction xs generalizing x with
+  | nil => simp
+  | cons a t ih =>
+    simp only [List.foldl_cons]
+    obtain ⟨h1, h2⟩ := ih (min x a)
+    refine ⟨le_trans h1 (min_le_left _ _), ?_⟩
+    intro y hy
+    rcases List.mem_cons.mp hy with rfl | hm
+    · exact le_trans h1 (min_le_right _ _)
+    · exact h2 y hm
+
+theorem maxL_le {l : List Rat} {v : Rat} (hne : l ≠ []) (h : ∀ x ∈ l, x ≤ v) : maxL l ≤ v := by
+  cases l with
+  | nil => exact absurd rfl hne
+  | cons x xs => exact foldl_max_le xs x (h x (by simp)) (fun y hy => h y (by simp [hy]))
+
+theorem le_maxL {l : List Rat} {x : Rat} (hx : x ∈ l) : x ≤ maxL l := by
+  cases l with
+  | nil => simp at hx
+  | cons a xs =>
+    rcases List.mem_cons.mp hx with rfl | hm
+    · exact (le_foldl_max xs _).1
+    · exact (le_foldl_max xs a).2 x hm
+
+theorem le_minL {l : List Rat} {v : Rat} (hne : l ≠ []) (h : ∀ x ∈ l, v ≤ x) : v ≤ minL l := by
+  cases l with
+  | nil => exact absurd rfl hne
+  | cons x xs => exact le_foldl_min xs x (h x (by simp)) (fun y hy => h y (by simp [hy]))
+
+theorem minL_le {l : List Rat} {x : Rat} (hx : x ∈ l) : minL l ≤ x := by
+  cases l with
+  | nil => simp at hx
+  | cons a xs =>
+    rcases List.mem_cons.mp hx with rfl | hm
+    · exact (foldl_min_le xs _).1
+    · exact (foldl_min_le xs a).2 x hm
+
+/-- max-min from its two certificates: every start `a ≤ i` has an end `≥ i` with average ≤ v, and some start
+    `a ≤ i` has all its averages ≥ v -/
+theorem maxmin_eq_of_bounds (gs : List (Rat × Rat)) (i : Nat) (v : Rat) (hi : i < gs.length)
+    (hup : ∀ a, a ≤ i → ∃ d, d < gs.length - i ∧ avg ((gs.drop a).take (i + d - a + 1)) ≤ v)
+    (hlo : ∃ a, a ≤ i ∧ ∀ d, d < gs.length - i → v ≤ avg ((gs.drop a).take (i + d - a + 1))) :
+    maxmin gs i = v := by
+  unfold maxmin
+  apply le_antisymm
+  · apply maxL_le (by simp)
+    intro x hx
+    obtain ⟨a, ha, rfl⟩ := List.mem_map.mp hx
+    obtain ⟨d, hd, hle⟩ := hup a (by have := List.mem_range.mp ha; omega)
+    exact le_trans (minL_le (List.mem_map.mpr ⟨d, List.mem_range.mpr hd, rfl⟩)) hle
+  · obtain ⟨a, ha, hall⟩ := hlo
+    refine le_trans ?_ (le_maxL (List.mem_map.mpr ⟨a, List.mem_range.mpr (by omega), rfl⟩))
+    apply le_minL
+    · have : 0 < gs.length - i := by omega
+      intro h
+      have := congrArg List.length h
+      simp at this
+      omega
+    · intro x hx
+      obtain ⟨d, hd, rfl⟩ := List.mem_map.mp hx
+      exact hall d (List.mem_range.mp hd)
+
+/-- the (Σ w·y, Σ w) entries the Spec averages over -/
+def wy (p : Pair) : Rat × Rat := (p.2.2 * p.2.1, p.2.2)
+
+theorem seq_gs (t : List Pair) : (itemsOf t).map (fun x => (x.2 * x.1, x.2)) = t.map wy := by
+  simp [itemsOf, wy, List.map_map, Function.comp_def]
+
+theorem avg_wy (l : List Pair) : avg (l.map wy) = Sp l / Wp l := by
+  simp [avg, wy, Sp, Wp, List.map_map, Function.comp_def]
+
+theorem avg_seg (t : List Pair) (a k : Nat) : avg (((t.map wy).drop a).take k) = Sp ((t.drop a).take k) / Wp ((t.drop a).take k) := by
+  rw [← List.map_drop, ← List.map_take, avg_wy]
+
+theorem suffix_append_cases {Q A R : List Pair} (h : Q <:+ A ++ R) : Q <:+ R ∨ ∃ Q', Q' <:+ A ∧ Q = Q' ++ R := by
+  obtain ⟨p, hp⟩ := h
+  rcases List.append_eq_append_iff.mp hp with ⟨a', h1, h2⟩ | ⟨c', h1, h2⟩
+  · exact Or.inr ⟨a', ⟨p, h1.symm⟩, h2⟩
+  · exact Or.inl ⟨c', h2.symm⟩
+
+/-- every suffix of a KKT block has weighted mean ≤ the block value -/
+theorem kblk_suffix {b : Blk Pair} (hb : KBlk b) {Q : List Pair} (hQ : Q <:+ b.items) : Sp Q ≤ b.val * Wp Q := by
+  obtain ⟨_, _, hbal, hK⟩ := hb
+  obtain ⟨P, hP⟩ := hQ
+  have h1 := hK P ⟨Q, hP⟩
+  rw [← hP, Sp_append, Wp_append] at hbal
+  linarith
+
+/-- blocks with values ≤ v: every suffix of their concatenation has weighted mean ≤ v -/
+theorem blocks_suffix_le (v : Rat) (L : List (Blk Pair)) (hK : ∀ b ∈ L, KBlk b) (hv : ∀ b ∈ L, b.val ≤ v) :
+    ∀ Q, Q <:+ flat L → Sp Q ≤ v * Wp Q := by
+  induction L with
+  | nil => intro Q hQ; have : Q = [] := by simpa using hQ
+           subst this; simp
+  | cons b L' ih =>
+    intro Q hQ
+    have ih' := ih (fun c hc => hK c (by simp [hc])) (fun c hc => hv c (by simp [hc]))
+    rw [flat_cons] at hQ
+    rcases suffix_append_cases hQ with h | ⟨Q', hQ', rfl⟩
+    · exact ih' Q h
+    · have hb := hK b (by simp)
+      have h1 := kblk_suffix hb hQ'
+      have h2 := ih' (flat L') (List.suffix_refl _)
+      have h3 : 0 ≤ Wp Q' := Wp_nonneg (fun q hq => hb.2.1 q (hQ'.subset hq))
+      have h4 := hv b (by simp)
+      rw [Sp_append, Wp_append]
+      nlinarith
+
+/-- blocks with values ≥ v: every prefix of their concatenation has weighted mean ≥ v -/
+theorem blocks_prefix_ge (v : Rat) (L : List (Blk Pair)) (hK : ∀ b ∈ L, KBlk b) (hv : ∀ b ∈ L, v ≤ b.val) :
+    ∀ P, P <+: flat L → v * Wp P ≤ Sp P := by
+  induction L with
+  | nil => intro P hP; have : P = [] := by simpa using hP
+           subst this; simp
+  | cons b L' ih =>
+    intro P hP
+    have ih' := ih (fun c hc => hK c (by simp [hc])) (fun c hc => hv c (by simp [hc]))
+    rw [flat_cons] at hP
+    have hb := hK b (by simp)
+    have h4 := hv b (by simp)
+    rcases prefix_append_cases hP with h | ⟨Q, hQ, rfl⟩
+    · have h1 := hb.2.2.2 P h
+      have h3 : 0 ≤ Wp P := Wp_nonneg (fun q hq => hb.2.1 q (h.subset hq))
+      nlinarith
+    · have h2 := ih' Q hQ
+      have h3 : 0 < Wp b.items := Wp_pos hb.1 hb.2.1
+      rw [Sp_append, Wp_append, hb.2.2.1]
+      nlinarith
+
+theorem mem_flat {L : List (Blk Pair)} {p : Pair} (h : p ∈ flat L) : ∃ c ∈ L, p ∈ c.items := by
+  unfold flat at h
+  exact List.mem_flatMap.mp h
+
+/-- a position inside block `b` (blocks before it have values ≤, blocks after it values ≥): max-min = block value -/
+theorem maxmin_of_blocks (pre post : List (Blk Pair)) (b : Blk Pair)
+    (hK : ∀ c ∈ pre ++ b :: post, KBlk c)
+    (hpre : ∀ c ∈ pre, c.val ≤ b.val) (hpost : ∀ c ∈ post, b.val ≤ c.val)
+    (i : Nat) (hi1 : (flat pre).length ≤ i) (hi2 : i < (flat pre).length + b.items.length) :
+    maxminSeq (itemsOf (flat (pre ++ b :: post))) i = b.val := by
+  unfold maxminSeq
+  rw [seq_gs]
+  have htdef : flat (pre ++ b :: post) = flat pre ++ (b.items ++ flat post) := by simp
+  have hw : ∀ p ∈ flat (pre ++ b :: post), 0 < p.2.2 := by
+    intro p hp
+    obtain ⟨c, hc, hpc⟩ := mem_flat hp
+    exact (hK c hc).2.1 p hpc
+  rw [htdef] at hw ⊢
+  have hKb : KBlk b := hK b (by simp)
+  apply maxmin_eq_of_bounds
+  · simp only [List.length_map, List.length_append]; omega
+  · intro a ha
+    refine ⟨(flat pre).length + b.items.length - 1 - i, ?_, ?_⟩
+    · simp only [List.length_map, List.length_append]; omega
+    · rw [avg_seg]
+      have hk : i + ((flat pre).length + b.items.length - 1 - i) - a + 1 = (flat pre).length + b.items.length - a := by omega
+      rw [hk]
+      have hseg : ((flat pre ++ (b.items ++ flat post)).drop a).take ((flat pre).length + b.items.length - a)
+          = (flat (pre ++ [b])).drop a := by
+        rw [← List.drop_take, ← List.append_assoc, List.take_left' (by simp)]
+        simp
+      rw [hseg]
+      have hsuf : (flat (pre ++ [b])).drop a <:+ flat (pre ++ [b]) := List.drop_suffix _ _
+      have h1 := blocks_suffix_le b.val (pre ++ [b]) (fun c hc => hK c (by
+          simp only [List.mem_append, List.mem_cons, List.not_mem_nil, or_false] at hc ⊢; tauto))
+        (fun c hc => by
+          simp only [List.mem_append, List.mem_singleton] at hc
+          rcases hc with h | rfl
+          · exact hpre c h
+          · exact le_refl _) _ hsuf
+      have hne : (flat (pre ++ [b])).drop a ≠ [] := by
+        intro h
+        have := congrArg List.length h
+        simp at this
+        omega
+      have hpos : 0 < Wp ((flat (pre ++ [b])).drop a) := Wp_pos hne (by
+        intro p hp
+        apply hw p
+        have := hsuf.subset hp
+        simp only [flat_append, flat_cons, flat_nil, List.append_nil, List.mem_append] at this ⊢
+        tauto)
+      rw [div_le_iff₀ hpos]
+      exact h1
+  · refine ⟨(flat pre).length, hi1, ?_⟩
+    intro d _
+    rw [avg_seg, List.drop_left' rfl]
+    have hpfx : (b.items ++ flat post).take (i + d - (flat pre).length + 1) <+: flat (b :: post) := by
+      rw [flat_cons]; exact List.take_prefix _ _
+    have h1 := blocks_prefix_ge b.val (b :: post) (fun c hc => hK c (by simp only [List.mem_append]; exact Or.inr hc))
+      (fun c hc => by
+        rcases List.mem_cons.mp hc with rfl | h
+        · exact le_refl _
+        · exact hpost c h) _ hpfx
+    have hne : (b.items ++ flat post).take (i + d - (flat pre).length + 1) ≠ [] := by
+      intro h
+      have := congrArg List.length h
+      have hb1 : 0 < b.items.length := List.length_pos_of_ne_nil hKb.1
+      rw [List.length_take, List.length_append, List.length_nil] at this
+      omega
+    have hpos : 0 < Wp ((b.items ++ flat post).take (i + d - (flat pre).length + 1)) := Wp_pos hne (by
+      intro p hp
+      apply hw p
+      have := (List.take_prefix _ _).subset hp
+      simp only [List.mem_append] at this ⊢
+      tauto)
+    rw [le_div_iff₀ hpos]
+    exact h1
+
+theorem expand_vals_aux (bs : List (Blk Pair)) (hK : ∀ b ∈ bs, KBlk b) (hinc : bs.Pairwise (fun a b => a.val < b.val)) :
+    ∀ post pre, pre ++ post = bs →
+      (expand post).map (·.2) = (List.range' (flat pre).length (flat post).length).map (maxminSeq (itemsOf (flat bs))) := by
+  intro post
+  induction post with
+  | nil => intro pre _; simp [expand]
+  | cons b post' ih =>
+    intro pre h
+    have ih' := ih (pre ++ [b]) (by rw [← h]; simp)
+    have hsplit := hinc
+    rw [← h, List.pairwise_append] at hsplit
+    obtain ⟨_, hbp, hcross⟩ := hsplit
+    have hpre : ∀ c ∈ pre, c.val ≤ b.val := fun c hc => le_of_lt (hcross c hc b (by simp))
+    have hpost : ∀ c ∈ post', b.val ≤ c.val := fun c hc => le_of_lt ((List.pairwise_cons.mp hbp).1 c hc)
+    have hE : (expand (b :: post')).map (·.2) = (b.items.map fun _ => b.val) ++ (expand post').map (·.2) := by
+      simp [expand, List.map_map, Function.comp_def]
+    rw [hE, ih', flat_cons, List.length_append, ← List.range'_append_1, List.map_append]
+    congr 1
+    · rw [List.map_const']
+      have : ∀ i ∈ List.range' (flat pre).length b.items.length,
+          maxminSeq (itemsOf (flat bs)) i = (fun _ => b.val) i := by
+        intro i hi
+        obtain ⟨h1, h2⟩ := List.mem_range'_1.mp hi
+        rw [← h]
+        exact maxmin_of_blocks pre post' b (by rw [h]; exact hK) hpre hpost i h1 h2
+      rw [List.map_congr_left this, List.map_const', List.length_range']
+    · simp
+
+/-- MAX-MIN for a list of KKT blocks with strictly increasing values -/
+theorem expand_vals_eq_maxmin (bs : List (Blk Pair)) (hK : ∀ b ∈ bs, KBlk b)
+    (hinc : bs.Pairwise (fun a b => a.val < b.val)) :
+    (expand bs).map (·.2) = (List.range (flat bs).length).map (maxminSeq (itemsOf (flat bs))) := by
+  have := expand_vals_aux bs hK hinc bs [] rfl
+  simpa [List.range_eq_range'] using this
+
+/-- the mean fit of ANY sequence of pairs with positive weights is given by the max-min formula -/
+theorem fitPairs_eq_maxmin (t : List Pair) (hw : ∀ p ∈ t, 0 < p.2.2) :
+    (fitPairs wmean t).map (·.2) = (List.range t.length).map (maxminSeq (itemsOf t)) := by
+  have := expand_vals_eq_maxmin (pav obsOf (fun l => wmean (itemsOf l)) t) (pav_kblk t hw) (pav_increasing _ _ t)
+  rw [pav_flat] at this
+  exact this
+
+/-! ### C. the quantile solver lies between two observations of its block -/
+
+theorem sortAsc_mem (y : Rat) (xs : List Rat) : y ∈ sortAsc xs ↔ y ∈ xs := by
+  induction xs with
+  | nil => simp [sortAsc]
+  | cons a t ih =>
+    have : sortAsc (a :: t) = insertSorted a (sortAsc t) := by simp [sortAsc]
+    rw [this, insertSorted_mem, ih]; simp
+
+theorem quantileSorted_between (v : List Rat) (q : Rat) (hs : v.Pairwise (· ≤ ·)) (hne : v ≠ []) (h0 : 0 ≤ q) (h1 : q ≤ 1) :
+    ∃ x ∈ v, ∃ y ∈ v, x ≤ quantileSorted v q ∧ quantileSorted v q ≤ y := by
+  have hlen : 0 < v.length := List.length_pos_of_ne_nil hne
+  set pos : Rat := (((v.length : Int) - 1 : Int) : Rat) * q with hpos
+  have hn : (0 : Rat) ≤ (((v.length : Int) - 1 : Int) : Rat) := by
+    have : (0 : Int) ≤ (v.length : Int) - 1 := by omega
+    exact_mod_cast this
+  have hp0 : 0 ≤ pos := mul_nonneg hn h0
+  have hp1 : pos ≤ (((v.length : Int) - 1 : Int) : Rat) := by
+    calc pos ≤ (((v.length : Int) - 1 : Int) : Rat) * 1 := mul_le_mul_of_nonneg_left h1 hn
+      _ = _ := by ring
+  have f0 : 0 ≤ pos.floor := Rat.le_floor_iff.mpr (by exact_mod_cast hp0)
+  have c1 : pos.ceil ≤ (v.length : Int) - 1 := Rat.ceil_le_iff.mpr hp1
+  have fc : pos.floor ≤ pos.ceil := by
+    have : (pos.floor : Rat) ≤ (pos.ceil : Rat) := le_trans (Rat.floor_le pos) Rat.le_ceil
+    exact_mod_cast this
+  have hlo : pos.floor.toNat < v.length := by omega
+  have hhi : pos.ceil.toNat < v.length := by omega
+  have hlh : pos.floor.toNat ≤ pos.ceil.toNat := by omega
+  have hcast : ((pos.floor.toNat : Int) : Rat) = (pos.floor : Rat) := by
+    rw [Int.toNat_of_nonneg f0]
+  have hfr0 : 0 ≤ pos - (pos.floor : Rat) := sub_nonneg.mpr (Rat.floor_le pos)
+  have hfr1 : pos - (pos.floor : Rat) ≤ 1 := by
+    have := Rat.lt_floor_add_one pos; push_cast at this; linarith
+  have hab : v[pos.floor.toNat] ≤ v[pos.ceil.toNat] := by
+    rcases Nat.lt_or_ge pos.floor.toNat pos.ceil.toNat with h | h
+    · exact (List.pairwise_iff_getElem.mp hs) _ _ hlo hhi h
+    · have : pos.floor.toNat = pos.ceil.toNat := by omega
+      simp [this]
+  have hval : quantileSorted v q = v[pos.floor.toNat] + (v[pos.ceil.toNat] - v[pos.floor.toNat]) * (pos - (pos.floor : Rat)) := by
+    unfold quantileSorted
+    simp only [← hpos]
+    rw [List.getD_eq_getElem?_getD, List.getD_eq_getElem?_getD, List.getElem?_eq_getElem hlo, List.getElem?_eq_getElem hhi,
+      hcast]
+    simp
+  refine ⟨v[pos.floor.toNat], List.getElem_mem _, v[pos.ceil.toNat], List.getElem_mem _, ?_, ?_⟩
+  · rw [hval]; nlinarith [mul_nonneg (sub_nonneg.mpr hab) hfr0]
+  · rw [hval]; nlinarith [mul_nonneg (sub_nonneg.mpr hab) (sub_nonneg.mpr hfr1)]
+
+/-- `np.quantile(block, q)` with 0 ≤ q ≤ 1 lies between two observations of the (non-empty) block -/
+theorem quantileSolver_between (q : Rat) (h0 : 0 ≤ q) (h1 : q ≤ 1) (l : List Item) (hne : l ≠ []) :
+    ∃ x ∈ l, ∃ y ∈ l, x.1 ≤ quantileSolver q l ∧ quantileSolver q l ≤ y.1 := by
+  unfold quantileSolver
+  have hne' : sortAsc (l.map (·.1)) ≠ [] := by
+    intro h
+    have := congrArg List.length h
+    rw [sortAsc_length] at this
+    simp at this
+    exact hne this
+  obtain ⟨x, hx, y, hy, hxy⟩ := quantileSorted_between _ q (sortAsc_sorted _) hne' h0 h1
+  obtain ⟨x', hx', rfl⟩ := List.mem_map.mp ((sortAsc_mem _ _).mp hx)
+  obtain ⟨y', hy', rfl⟩ := List.mem_map.mp ((sortAsc_mem _ _).mp hy)
+  exact ⟨x', hx', y', hy', hxy⟩
+
+/-! ### D. the group-level max-min formula of the Spec (`Spec.Isotonic.isoFit`): the tidied pairs are collapsed to one
+        weighted observation per distinct forecast; the collapsed fit is the same function of the forecast
+        (uniqueness of the minimiser) and is given by the sequence max-min formula (section B) -/
+
+open SV.Spec.Isotonic (insertU distinct groupSum)
+
+theorem insertU_mem (x y : Rat) (l : List Rat) : y ∈ insertU x l ↔ y = x ∨ y ∈ l := by
+  induction l with
+  | nil => simp [insertU]
+  | cons a t ih =>
+    unfold insertU
+    split
+    · simp
+    · split
+      · rename_i h; subst h; simp
+      · simp [ih]; tauto
+
+theorem insertU_sorted (x : Rat) (l : List Rat) (h : l.Pairwise (· < ·)) : (insertU x l).Pairwise (· < ·) := by
+  induction l with
+  | nil => simp [insertU]
+  | cons a t ih =>
+    unfold insertU
+    split
+    · rename_i hxa
+      refine List.pairwise_cons.mpr ⟨?_, h⟩
+      intro y hy
+      rcases List.mem_cons.mp hy with rfl | hm
+      · exact hxa
+      · exact lt_trans hxa ((List.pairwise_cons.mp h).1 y hm)
+    · split
+      · exact h
+      · rename_i h1 h2
+        have hax : a < x := lt_of_le_of_ne (not_lt.mp h1) (Ne.symm h2)
+        refine List.pairwise_cons.mpr ⟨?_, ih (List.pairwise_cons.mp h).2⟩
+        intro y hy
+        rcases (insertU_mem x y t).mp hy with rfl | hm
+        · exact hax
+        · exact (List.pairwise_cons.mp h).1 y hm
+
+theorem distinct_sorted (ps : List Pair) : (distinct ps).Pairwise (· < ·) := by
+  unfold distinct
+  induction ps with
+  | nil => simp
+  | cons p t ih => simpa using insertU_sorted _ _ ih
+
+theorem distinct_mem (ps : List Pair) (u : Rat) : u ∈ distinct ps ↔ ∃ p ∈ ps, p.1 = u := by
+  unfold distinct
+  induction ps with
+  | nil => simp
+  | cons p t ih =>
+    rw [List.map_cons, List.foldr_cons, insertU_mem, ih]
+    constructor
+    · rintro (rfl | ⟨q, hq, rfl⟩)
+      · exact ⟨p, by simp, rfl⟩
+      · exact ⟨q, by simp [hq], rfl⟩
+    · rintro ⟨q, hq, rfl⟩
+      rcases List.mem_cons.mp hq with rfl | hm
+      · exact Or.inl rfl
+      · exact Or.inr ⟨q, hm, rfl⟩
+
+theorem sum_ite_zero (us : List Rat) (x c : Rat) (hx : x ∉ us) : (us.map fun u => if x = u then c else 0).sum = 0 := by
+  induction us with
+  | nil => simp
+  | cons a t ih =>
+    have h1 : x ≠ a := fun h => hx (by simp [h])
+    have h2 : x ∉ t := fun h => hx (by simp [h])
+    simp [h1, ih h2]
+
+theorem sum_ite_nodup (us : List Rat) (hnd : us.Nodup) (x c : Rat) (hx : x ∈ us) :
+    (us.map fun u => if x = u then c else 0).sum = c := by
+  induction us with
+  | nil => simp at hx
+  | cons a t ih =>
+    obtain ⟨hat, hnt⟩ := List.nodup_cons.mp hnd
+    by_cases h : x = a
+    · subst h
+      simp [sum_ite_zero t x c hat]
+    · have hxt : x ∈ t := by
+        rcases List.mem_cons.mp hx with h' | h'
+        · exact absurd h' h
+        · exact h'
+      simp [h, ih hnt hxt]
+
+/-- a sum over the pairs = the sum over the distinct forecasts of the sums over each forecast's pairs -/
+theorem sum_by_groups (us : List Rat) (hnd : us.Nodup) (t : List Pair) (hc : ∀ p ∈ t, p.1 ∈ us) (F : Pair → Rat) :
+    (t.map F).sum = (us.map fun u => ((t.filter fun p => decide (p.1 = u)).map F).sum).sum := by
+  induction t with
+  | nil => simp
+  | cons p t ih =>
+    have ih' := ih (fun q hq => hc q (by simp [hq]))
+    have hstep : ∀ u, (((p :: t).filter fun q => decide (q.1 = u)).map F).sum
+        = (if p.1 = u then F p else 0) + ((t.filter fun q => decide (q.1 = u)).map F).sum := by
+      intro u
+      rw [List.filter_cons]
+      by_cases h : p.1 = u <;> simp [h]
+    simp only [hstep, List.map_cons, List.sum_cons]
+    rw [List.sum_map_add, sum_ite_nodup us hnd p.1 (F p) (hc p (by simp)), ih']
+
+theorem sq_expand (G : List Pair) (h : Rat) :
+    (G.map fun p => p.2.2 * (p.2.1 - h) ^ 2).sum = (G.map fun p => p.2.2 * p.2.1 ^ 2).sum - 2 * h * Sp G + h ^ 2 * Wp G := by
+  induction G with
+  | nil => simp
+  | cons p t ih => simp only [List.map_cons, List.sum_cons, Sp_cons, Wp_cons, ih]; ring
+
+/-- between/within decomposition of the squared error of a constant on one group -/
+theorem group_sse (G : List Pair) (h : Rat) (hW : Wp G ≠ 0) :
+    (G.map fun p => p.2.2 * (p.2.1 - h) ^ 2).sum
+      = Wp G * (Sp G / Wp G - h) ^ 2 + ((G.map fun p => p.2.2 * p.2.1 ^ 2).sum - Sp G ^ 2 / Wp G) := by
+  rw [sq_expand]; field_simp; ring
+
+/-- the pairs with forecast `u` -/
+def grp (ps : List Pair) (u : Rat) : List Pair := ps.filter fun p => decide (p.1 = u)
+
+/-- one weighted observation (group mean, group weight) per distinct forecast -/
+def collapse (ps : List Pair) : List Pair :=
+  (distinct ps).map fun u => (u, Sp (grp ps u) / Wp (grp ps u), Wp (grp ps u))
+
+def withinSS (ps : List Pair) : Rat :=
+  ((distinct ps).map fun u => ((grp ps u).map fun p => p.2.2 * p.2.1 ^ 2).sum - Sp (grp ps u) ^ 2 / Wp (grp ps u)).sum
+
+theorem grp_pos (ps : List Pair) (hw : ∀ p ∈ ps, 0 < p.2.2) {u : Rat} (hu : u ∈ distinct ps) : 0 < Wp (grp ps u) := by
+  obtain ⟨p, hp, rfl⟩ := (distinct_mem ps u).mp hu
+  apply Wp_pos
+  · intro h
+    have : p ∈ grp ps p.1 := List.mem_filter.mpr ⟨hp, by simp⟩
+    rw [h] at this; simp at this
+  · intro q hq
+    exact hw q (List.mem_filter.mp hq).1
+
+theorem collapse_fst (ps : List Pair) : (collapse ps).map (·.1) = distinct ps := by
+  unfold collapse; rw [List.map_map]; simp [Function.comp_def]
+
+theorem collapse_pos (ps : List Pair) (hw : ∀ p ∈ ps, 0 < p.2.2) : ∀ p ∈ collapse ps, 0 < p.2.2 := by
+  intro p hp
+  obtain ⟨u, hu, rfl⟩ := List.mem_map.mp hp
+  exact grp_pos ps hw hu
+
+theorem collapse_sorted (ps : List Pair) : (collapse ps).Pairwise (fun a b => a.1 < b.1) := by
+  have := distinct_sorted ps
+  rw [← collapse_fst, List.pairwise_map] at this
+  exact this
+
+/-- squared error of a function of the forecast: over the pairs = over the collapsed pairs + a constant -/
+theorem sse_collapse (ps : List Pair) (hw : ∀ p ∈ ps, 0 < p.2.2) (h : Rat → Rat) :
+    (ps.map fun p => p.2.2 * (p.2.1 - h p.1) ^ 2).sum
+      = ((collapse ps).map fun p => p.2.2 * (p.2.1 - h p.1) ^ 2).sum + withinSS ps := by
+  rw [sum_by_groups (distinct ps) ((distinct_sorted ps).imp ne_of_lt) ps (fun p hp => (distinct_mem ps p.1).mpr ⟨p, hp, rfl⟩)]
+  unfold collapse withinSS
+  rw [List.map_map, ← List.sum_map_add]
+  congr 1
+  apply List.map_congr_left
+  intro u hu
+  have hW := grp_pos ps hw hu
+  have e : ((ps.filter fun p => decide (p.1 = u)).map fun p => p.2.2 * (p.2.1 - h p.1) ^ 2)
+      = (grp ps u).map fun p => p.2.2 * (p.2.1 - h u) ^ 2 := by
+    apply List.map_congr_left
+    intro p hp
+    have : p.1 = u := by simpa using (List.mem_filter.mp hp).2
+    rw [this]
+  rw [e, group_sse _ _ (ne_of_gt hW)]
+  simp
+
+theorem fcstMono_of_strict (Z : List (Pair × Rat)) (h1 : Z.Pairwise (fun a b => a.2 ≤ b.2))
+    (h2 : Z.Pairwise (fun a b => a.1.1 < b.1.1)) : FcstMono Z := by
+  let S : Pair × Rat → Pair × Rat → Prop := fun a b => (a.1.1 ≤ b.1.1 → a.2 ≤ b.2) ∧ (b.1.1 ≤ a.1.1 → b.2 ≤ a.2)
+  have hsym : Std.Symm S := ⟨fun a b h => ⟨h.2, h.1⟩⟩
+  have hP : Z.Pairwise S := by
+    refine (h1.and h2).imp ?_
+    rintro a b ⟨hv, hf⟩
+    exact ⟨fun _ => hv, fun hba => absurd hf (not_lt.mpr hba)⟩
+  intro a ha b hb hab
+  exact (List.Pairwise.forall_of_forall (fun x _ => ⟨fun _ => le_refl _, fun _ => le_refl _⟩) hP ha hb).1 hab
+
+theorem collapse_fit_fcstMono (ps : List Pair) : FcstMono (fitPairs wmean (collapse ps)) := by
+  apply fcstMono_of_strict _ (fit_monotone _ _ _)
+  have hs : ((fitPairs wmean (collapse ps)).map (·.1)).Pairwise (fun a b : Pair => a.1 < b.1) := by
+    rw [fitPairs_fst]; exact collapse_sorted ps
+  exact (List.pairwise_map (f := fun pv : Pair × Rat => pv.1) (R := fun a b : Pair => a.1 < b.1)).mp hs
+
+/-- uniqueness of the minimiser, in the form used here -/
+theorem fit_unique_of_le (t : List Pair) (hw : ∀ p ∈ t, 0 < p.2.2) (z : Pair → Rat) (hz : (t.map z).Pairwise (· ≤ ·))
+    (hbest : (t.map fun p => p.2.2 * (p.2.1 - z p) ^ 2).sum ≤ sseFit (fitPairs wmean t)) :
+    ∀ pv ∈ fitPairs wmean t, z pv.1 = pv.2 := by
+  have g1 := fit_optimal_gap t hw z hz
+  have hz0 := all_zero_of_sum_nonpos (fitPairs wmean t) (fun pv => pv.1.2.2 * (pv.2 - z pv.1) ^ 2)
+    (by intro pv hpv; have := hw pv.1 (fitPairs_mem_fst _ _ hpv); positivity) (by linarith)
+  intro pv hpv
+  have h0 := hz0 pv hpv
+  have hwp := hw pv.1 (fitPairs_mem_fst _ _ hpv)
+  have : (pv.2 - z pv.1) ^ 2 = 0 := by
+    rcases mul_eq_zero.mp h0 with h1 | h1
+    · exact absurd h1 (ne_of_gt hwp)
+    · exact h1
+  have := pow_eq_zero_iff (n := 2) (by norm_num) |>.mp this
+  linarith
+
+/-- KEY: the fit of the collapsed pairs is the fit of the tidied pairs, read as a function of the forecast -/
+theorem collapse_fit_val (ps : List Pair) (hw : ∀ p ∈ ps, 0 < p.2.2) :
+    ∀ pv ∈ fitPairs wmean (collapse ps), valAt (fitPairs wmean (tidy ps)) pv.1.1 = pv.2 := by
+  have hwc := collapse_pos ps hw
+  have hwt : ∀ p ∈ tidy ps, 0 < p.2.2 := fun p hp => hw p ((tidy_perm ps).mem_iff.mp hp)
+  have hm1 := fit_fcstMono wmean ps
+  have hv1 := valAt_mem hm1
+  have hm2 := collapse_fit_fcstMono ps
+  have hv2 := valAt_mem hm2
+  -- every distinct forecast carries a fitted pair in both fits
+  have hin1 : ∀ u ∈ distinct ps, ∃ pa ∈ fitPairs wmean (tidy ps), pa.1.1 = u := by
+    intro u hu
+    obtain ⟨p, hp, rfl⟩ := (distinct_mem ps u).mp hu
+    have : p ∈ (fitPairs wmean (tidy ps)).map (·.1) := by rw [fitPairs_fst]; exact (tidy_perm ps).mem_iff.mpr hp
+    obtain ⟨pa, hpa, rfl⟩ := List.mem_map.mp this
+    exact ⟨pa, hpa, rfl⟩
+  have hin2 : ∀ u ∈ distinct ps, ∃ pa ∈ fitPairs wmean (collapse ps), pa.1.1 = u := by
+    intro u hu
+    rw [← collapse_fst, ← fitPairs_fst wmean (collapse ps), List.map_map] at hu
+    obtain ⟨pa, hpa, rfl⟩ := List.mem_map.mp hu
+    exact ⟨pa, hpa, rfl⟩
+  have m1 : ((collapse ps).map fun p => valAt (fitPairs wmean (tidy ps)) p.1).Pairwise (· ≤ ·) := by
+    rw [List.pairwise_map]
+    refine (collapse_sorted ps).imp_of_mem ?_
+    intro a b ha hb hab
+    have ha' : a.1 ∈ distinct ps := by rw [← collapse_fst]; exact List.mem_map_of_mem ha
+    have hb' : b.1 ∈ distinct ps := by rw [← collapse_fst]; exact List.mem_map_of_mem hb
+    obtain ⟨pa, hpa, ea⟩ := hin1 _ ha'
+    obtain ⟨pb, hpb, eb⟩ := hin1 _ hb'
+    rw [← ea, ← eb, hv1 pa hpa, hv1 pb hpb]
+    exact hm1 pa hpa pb hpb (by rw [ea, eb]; exact le_of_lt hab)
+  have m2 : ((tidy ps).map fun p => valAt (fitPairs wmean (collapse ps)) p.1).Pairwise (· ≤ ·) := by
+    rw [List.pairwise_map]
+    refine (tidy_sorted ps).imp_of_mem ?_
+    intro a b ha hb hab
+    have ha' : a.1 ∈ distinct ps := (distinct_mem ps _).mpr ⟨a, (tidy_perm ps).mem_iff.mp ha, rfl⟩
+    have hb' : b.1 ∈ distinct ps := (distinct_mem ps _).mpr ⟨b, (tidy_perm ps).mem_iff.mp hb, rfl⟩
+    obtain ⟨pa, hpa, ea⟩ := hin2 _ ha'
+    obtain ⟨pb, hpb, eb⟩ := hin2 _ hb'
+    rw [← ea, ← eb, hv2 pa hpa, hv2 pb hpb]
+    exact hm2 pa hpa pb hpb (by rw [ea, eb]; exact keyLe_fcst_le hab)
+  -- squared errors
+  have s1 : sseFit (fitPairs wmean (tidy ps))
+      = ((collapse ps).map fun p => p.2.2 * (p.2.1 - valAt (fitPairs wmean (tidy ps)) p.1) ^ 2).sum + withinSS ps := by
+    rw [sseFit_eq_of_val (fitPairs_fst wmean (tidy ps)) _ hv1, ((tidy_perm ps).map _).sum_eq, sse_collapse ps hw]
+  have s2 : ((tidy ps).map fun p => p.2.2 * (p.2.1 - valAt (fitPairs wmean (collapse ps)) p.1) ^ 2).sum
+      = sseFit (fitPairs wmean (collapse ps)) + withinSS ps := by
+    rw [((tidy_perm ps).map _).sum_eq, sse_collapse ps hw, sseFit_eq_of_val (fitPairs_fst wmean (collapse ps)) _ hv2]
+  have g := fit_optimal_gap (tidy ps) hwt (fun p => valAt (fitPairs wmean (collapse ps)) p.1) m2
+  have n := gap_nonneg (tidy ps) hwt (fun p => valAt (fitPairs wmean (collapse ps)) p.1)
+  rw [s2, s1] at g
+  exact fit_unique_of_le (collapse ps) hwc (fun p => valAt (fitPairs wmean (tidy ps)) p.1) m1 (by linarith)
+
+/-- the Spec's group table is the (Σ w·y, Σ w) table of the collapsed pairs -/
+theorem groupSum_collapse (ps : List Pair) (hw : ∀ p ∈ ps, 0 < p.2.2) :
+    (distinct ps).map (groupSum ps) = (collapse ps).map wy := by
+  unfold collapse
+  rw [List.map_map]
+  apply List.map_congr_left
+  intro u hu
+  have hW := grp_pos ps hw hu
+  show (Sp (grp ps u), Wp (grp ps u)) = _
+  simp only [Function.comp_def, wy]
+  congr 1
+  field_simp
+
+/-- GROUP MAX-MIN: the fitted value of any tidied pair whose forecast is the i-th distinct forecast is the Spec's
+    max-min over the forecast groups -/
+theorem fit_eq_group_maxmin (ps : List Pair) (hw : ∀ p ∈ ps, 0 < p.2.2) (pv : Pair × Rat)
+    (hpv : pv ∈ fitPairs wmean (tidy ps)) (i : Nat) (hi : (distinct ps)[i]? = some pv.1.1) :
+    pv.2 = maxmin ((distinct ps).map (groupSum ps)) i := by
+  have hv1 := valAt_mem (fit_fcstMono wmean ps) pv hpv
+  have hfst : (fitPairs wmean (collapse ps)).map (fun x => x.1.1) = distinct ps := by
+    have := congrArg (List.map fun p : Pair => p.1) (fitPairs_fst wmean (collapse ps))
+    rw [List.map_map, collapse_fst] at this
+    exact this
+  rw [← hfst, List.getElem?_map, Option.map_eq_some_iff] at hi
+  obtain ⟨pv', hget, hf⟩ := hi
+  have hmem : pv' ∈ fitPairs wmean (collapse ps) := List.mem_of_getElem? hget
+  have hv2 := collapse_fit_val ps hw pv' hmem
+  have hmm := fitPairs_eq_maxmin (collapse ps) (collapse_pos ps hw)
+  have h1 : ((fitPairs wmean (collapse ps)).map (·.2))[i]? = some pv'.2 := by
+    rw [List.getElem?_map, hget]; rfl
+  have hlt : i < (collapse ps).length := by
+    have := (List.getElem?_eq_some_iff.mp hget).1
+    have hl := congrArg List.length (fitPairs_fst wmean (collapse ps))
+    simp only [List.length_map] at hl
+    omega
+  rw [hmm, List.getElem?_map, List.getElem?_range hlt] at h1
+  simp only [Option.map_some, Option.some.injEq] at h1
+  rw [groupSum_collapse ps hw, ← seq_gs]
+  change pv.2 = maxminSeq (itemsOf (collapse ps)) i
+  rw [h1, ← hv2, hf, hv1]
+
+/-! ### E. `groups` (np.unique + interp) on a forecast-sorted sequence -/
+
+/-- what `groups` returns on a sequence sorted by forecast: strictly increasing forecasts, each with the number of
+    its pairs and the value of one of its pairs; head forecast = head forecast; every forecast is covered -/
+def GroupsSpec (L : List (Rat × Rat)) (G : List (Rat × Nat × Rat)) : Prop :=
+  (G.map (·.1)).Pairwise (· < ·) ∧
+  (∀ e ∈ G, e.2.1 = (L.filter fun x => decide (x.1 = e.1)).length ∧ (e.1, e.2.2) ∈ L) ∧
+  (G.head?.map (·.1)) = (L.head?.map (·.1)) ∧
+  (∀ x ∈ L, x.1 ∈ G.map (·.1))
+
+theorem groups_spec (L : List (Rat × Rat)) (hs : (L.map (·.1)).Pairwise (· ≤ ·)) : GroupsSpec L (groups L) := by
+  induction L with
+  | nil => simp [groups, GroupsSpec]
+  | cons a rest ih =>
+    obtain ⟨f, y⟩ := a
+    rw [List.map_cons, List.pairwise_cons] at hs
+    obtain ⟨hle, hs'⟩ := hs
+    obtain ⟨i1, i2, i3, i4⟩ := ih hs'
+    unfold groups
+    split
+    · rename_i heq
+      rw [heq] at i4
+      have hrest : rest = [] := by
+        cases rest with
+        | nil => rfl
+        | cons x t => exact absurd (i4 x (by simp)) (by simp)
+      subst hrest
+      refine ⟨by simp, ?_, by simp, by simp⟩
+      intro e he
+      simp only [List.mem_singleton] at he
+      subst he
+      simp
+    · rename_i f' c y' g heq
+      rw [heq] at i1 i2 i3 i4
+      -- the head of `rest` has forecast f'
+      have hhead : ∃ y0 rest', rest = (f', y0) :: rest' := by
+        cases rest with
+        | nil => simp at i3
+        | cons x t =>
+          simp only [List.head?_cons, Option.map_some, Option.some.injEq] at i3
+          exact ⟨x.2, t, by rw [i3]⟩
+      obtain ⟨y0, rest', hr⟩ := hhead
+      have hff : f ≤ f' := hle f' (by rw [hr]; simp)
+      have hg_gt : ∀ e ∈ g, f' < e.1 := by
+        intro e he
+        have := (List.pairwise_cons.mp (by simpa using i1)).1 e.1 (List.mem_map_of_mem he)
+        exact this
+      have hrest_ge : ∀ x ∈ rest, f' ≤ x.1 := by
+        intro x hx
+        have := i4 x hx
+        simp only [List.map_cons, List.mem_cons] at this
+        rcases this with h | h
+        · exact le_of_eq h.symm
+        · obtain ⟨e, he, hex⟩ := List.mem_map.mp h
+          rw [← hex]
+          exact le_of_lt (hg_gt e he)
+      split
+      · rename_i hEq
+        subst hEq
+        refine ⟨by simpa using i1, ?_, by simp, ?_⟩
+        · intro e he
+          rcases List.mem_cons.mp he with rfl | hm
+          · have := i2 (f, c, y') (by simp)
+            simp only at this ⊢
+            refine ⟨?_, List.mem_cons_of_mem _ this.2⟩
+            rw [List.filter_cons]
+            simp [this.1]
+          · have := i2 e (by simp [hm])
+            have hne : ¬ f = e.1 := ne_of_lt (hg_gt e hm)
+            refine ⟨?_, List.mem_cons_of_mem _ this.2⟩
+            rw [List.filter_cons]
+            simp [hne, this.1]
+        · intro x hx
+          rcases List.mem_cons.mp hx with rfl | hm
+          · simp
+          · simpa using i4 x hm
+      · rename_i hNe
+        have hlt : f < f' := lt_of_le_of_ne hff hNe
+        refine ⟨?_, ?_, by simp, ?_⟩
+        · simp only [List.map_cons, List.pairwise_cons]
+          refine ⟨?_, by simpa using i1⟩
+          intro u hu
+          rcases List.mem_cons.mp hu with rfl | hm
+          · exact hlt
+          · obtain ⟨e, he, rfl⟩ := List.mem_map.mp hm
+            exact lt_trans hlt (hg_gt e he)
+        · intro e he
+          rcases List.mem_cons.mp he with rfl | hm
+          · simp only
+            refine ⟨?_, by simp⟩
+            rw [List.filter_cons]
+            have : (rest.filter fun x => decide (x.1 = f)) = [] := by
+              rw [List.filter_eq_nil_iff]
+              intro x hx
+              have := hrest_ge x hx
+              simp only [decide_eq_true_eq]
+              exact fun h => absurd (h ▸ this) (not_le.mpr hlt)
+            simp [this]
+          · have := i2 e hm
+            have hne : ¬ f = e.1 := by
+              rcases List.mem_cons.mp hm with rfl | hm'
+              · exact hNe
+              · exact ne_of_lt (lt_trans hlt (hg_gt e hm'))
+            refine ⟨?_, List.mem_cons_of_mem _ this.2⟩
+            rw [List.filter_cons]
+            simp [hne, this.1]
+        · intro x hx
+          rcases List.mem_cons.mp hx with rfl | hm
+          · simp
+          · have := i4 x hm
+            simp only [List.map_cons, List.mem_cons] at this ⊢
+            exact Or.inr this
+
+theorem zip3_proj (G : List (Rat × Nat × Rat)) :
+    List.zip (G.map (·.1)) (List.zip (G.map (·.2.1)) (G.map (·.2.2))) = G := by
+  induction G with
+  | nil => simp
+  | cons a t ih => simp [ih]
+
+theorem strict_sorted_ext {l1 l2 : List Rat} (h1 : l1.Pairwise (· < ·)) (h2 : l2.Pairwise (· < ·))
+    (hm : ∀ a, a ∈ l1 ↔ a ∈ l2) : l1 = l2 := by
+  have hp : l1.Perm l2 := (List.perm_ext_iff_of_nodup (h1.imp ne_of_lt) (h2.imp ne_of_lt)).mpr hm
+  exact List.Perm.eq_of_pairwise (le := (· < ·)) (fun a b _ _ hab hba => absurd hab (not_lt.mpr (le_of_lt hba))) h1 h2 hp
+
+/-- the reduction to distinct forecasts applied to the mean fit IS the Spec's table
+    (forecast, number of pairs, max-min over the forecast groups) -/
+theorem groups_fit_eq_isoFit (ps : List Pair) (hw : ∀ p ∈ ps, 0 < p.2.2) :
+    groups ((fitPairs wmean (tidy ps)).map fun pv => (pv.1.1, pv.2)) = Spec.Isotonic.isoFit ps := by
+  have hv1 := valAt_mem (fit_fcstMono wmean ps)
+  have hLs : (((fitPairs wmean (tidy ps)).map fun pv => (pv.1.1, pv.2)).map (·.1)).Pairwise (· ≤ ·) := by
+    have := congrArg (List.map fun p : Pair => p.1) (fitPairs_fst wmean (tidy ps))
+    rw [List.map_map] at this
+    rw [List.map_map]
+    have e : ((fun x : Rat × Rat => x.1) ∘ fun pv : Pair × Rat => (pv.1.1, pv.2)) = ((fun p : Pair => p.1) ∘ fun x : Pair × Rat => x.1) := rfl
+    rw [e, this, List.pairwise_map]
+    exact (tidy_sorted ps).imp keyLe_fcst_le
+  obtain ⟨g1, g2, _, g4⟩ := groups_spec _ hLs
+  have hZmem : ∀ u, (∃ pv ∈ fitPairs wmean (tidy ps), pv.1.1 = u) ↔ u ∈ distinct ps := by
+    intro u
+    rw [distinct_mem]
+    constructor
+    · rintro ⟨pv, hpv, rfl⟩
+      exact ⟨pv.1, (tidy_perm ps).mem_iff.mp (fitPairs_mem_fst _ _ hpv), rfl⟩
+    · rintro ⟨p, hp, rfl⟩
+      have : p ∈ (fitPairs wmean (tidy ps)).map (·.1) := by rw [fitPairs_fst]; exact (tidy_perm ps).mem_iff.mpr hp
+      obtain ⟨pa, hpa, rfl⟩ := List.mem_map.mp this
+      exact ⟨pa, hpa, rfl⟩
+  have hfst : (groups ((fitPairs wmean (tidy ps)).map fun pv => (pv.1.1, pv.2))).map (·.1) = distinct ps := by
+    apply strict_sorted_ext g1 (distinct_sorted ps)
+    intro u
+    rw [← hZmem]
+    constructor
+    · intro hu
+      obtain ⟨e, he, rfl⟩ := List.mem_map.mp hu
+      obtain ⟨pv, hpv, hpe⟩ := List.mem_map.mp (g2 e he).2
+      exact ⟨pv, hpv, (Prod.ext_iff.mp hpe).1⟩
+    · rintro ⟨pv, hpv, rfl⟩
+      exact g4 (pv.1.1, pv.2) (List.mem_map.mpr ⟨pv, hpv, rfl⟩)
+  have hcount : ∀ u : Rat, (((fitPairs wmean (tidy ps)).map fun pv => (pv.1.1, pv.2)).filter fun x => decide (x.1 = u)).length
+      = (ps.filter fun p => decide (p.1 = u)).length := by
+    intro u
+    rw [List.filter_map, List.length_map]
+    have h2 : ((tidy ps).filter fun p => decide (p.1 = u)).length
+        = ((fitPairs wmean (tidy ps)).filter ((fun p : Pair => decide (p.1 = u)) ∘ fun x => x.1)).length := by
+      conv_lhs => rw [← fitPairs_fst wmean (tidy ps)]
+      rw [List.filter_map, List.length_map]
+    have h3 := ((tidy_perm ps).filter fun p => decide (p.1 = u)).length_eq
+    rw [← h3, h2]
+    rfl
+  have hG : groups ((fitPairs wmean (tidy ps)).map fun pv => (pv.1.1, pv.2))
+      = (distinct ps).map fun u => (u, (ps.filter fun p => decide (p.1 = u)).length, valAt (fitPairs wmean (tidy ps)) u) := by
+    rw [← hfst, List.map_map]
+    conv_lhs => rw [← List.map_id (groups _)]
+    apply List.map_congr_left
+    intro e he
+    obtain ⟨hc, hm⟩ := g2 e he
+    obtain ⟨pv, hpv, hpe⟩ := List.mem_map.mp hm
+    have h1 : pv.1.1 = e.1 := (Prod.ext_iff.mp hpe).1
+    have h2 : pv.2 = e.2.2 := (Prod.ext_iff.mp hpe).2
+    simp only [id, Function.comp_def]
+    rw [← hcount, ← hc, ← h1, hv1 pv hpv, h2, h1]
+  rw [hG]
+  unfold Spec.Isotonic.isoFit
+  simp only
+  apply List.ext_getElem
+  · simp
+  · intro i h1 h2
+    have hi : i < (distinct ps).length := by simpa using h1
+    simp only [List.getElem_map, List.getElem_range]
+    have hgd : (distinct ps).getD i 0 = (distinct ps)[i] := by
+      rw [List.getD_eq_getElem?_getD, List.getElem?_eq_getElem hi]; rfl
+    rw [hgd]
+    obtain ⟨pv, hpv, hpu⟩ := (hZmem _).mpr (List.getElem_mem hi)
+    have hmm := fit_eq_group_maxmin ps hw pv hpv i (by rw [List.getElem?_eq_getElem hi, hpu])
+    rw [← hmm, ← hpu, hv1 pv hpv]
+
 end SV.Model.Isotonic
